@@ -21,6 +21,7 @@ import (
 	"time"
 
 	"github.com/btcsuite/btcd/btcec/v2"
+	"github.com/btcsuite/btcd/wire"
 	"github.com/btcsuite/btclog/v2"
 	"github.com/lightninglabs/pool"
 	"github.com/lightninglabs/pool/account"
@@ -39,7 +40,8 @@ import (
 // (also used by other properties, e.g. C06 for reconnects with a staged batch):
 //
 //	c18Scn / c18Op                 a fault scenario: ops sub|err|shut with, per op, the number of refused Terms
-//	                               probes (Refuse), of failing stream opens after a successful probe (FailOpen) and
+//	                               probes (Refuse), of failing stream opens after a successful probe (FailOpen), of
+//	                               failing pending-batch checks (FailBatch) and
 //	                               the auctioneer's behaviour per incoming commitment (Beh: ok errBC shutBC errAC
 //	                               shutAC errMid reject)
 //	c18RunScenario(scn, uniq)      run it on a fresh REAL auctioneer.Client + REAL rpcServer.serverHandler loop
@@ -302,8 +304,19 @@ type c18Op struct {
 	Refuse int      `json:"refuse,omitempty"`
 	// FailOpen: that many of the next stream opens fail although the Terms
 	// probe before them succeeded
-	FailOpen int      `json:"fail_open,omitempty"`
-	Beh      []string `json:"beh,omitempty"`
+	FailOpen int `json:"fail_open,omitempty"`
+	// FailBatch: that many of the next pending-batch checks (BatchSnapshot
+	// RPC of checkPendingBatch, after a stream was opened) fail
+	FailBatch int      `json:"fail_batch,omitempty"`
+	Beh       []string `json:"beh,omitempty"`
+}
+
+// c18StagedBatch is a BatchSource with a pending batch, so that every
+// (re)connect cross-checks it with the auctioneer's BatchSnapshot RPC.
+type c18StagedBatch struct{}
+
+func (c18StagedBatch) PendingBatchSnapshot() (*clientdb.LocalBatchSnapshot, error) {
+	return &clientdb.LocalBatchSnapshot{BatchTX: wire.NewMsgTx(2)}, nil
 }
 
 // c18Hooks customise a scenario run (all optional).
@@ -457,10 +470,30 @@ func c18RunScenarioWith(scn c18Scn, uniq int, hooks *c18Hooks) *c18ScnResult {
 	minB := time.Duration(scn.MinMs) * time.Millisecond
 	maxB := time.Duration(scn.MaxMs) * time.Millisecond
 	srv.snapshot = hooks.Snapshot
-	var failOpen, failedOpens int32
+	var failOpen, failedOpens, failBatch int32
 	var batchSource auctioneer.BatchSource = c18NoBatch{}
 	if hooks.BatchSource != nil {
 		batchSource = hooks.BatchSource
+	} else {
+		for _, op := range scn.Ops {
+			if op.FailBatch > 0 {
+				// a staged batch the auctioneer has not finalized: the
+				// check passes ("batch snapshot not found") unless the
+				// RPC itself fails
+				batchSource = c18StagedBatch{}
+				srv.snapshot = func(*auctioneerrpc.BatchSnapshotRequest) (*auctioneerrpc.BatchSnapshotResponse, error) {
+					for {
+						n := atomic.LoadInt32(&failBatch)
+						if n <= 0 {
+							return nil, status.Error(codes.NotFound, auctioneer.ErrBatchNotFinalized.Error())
+						}
+						if atomic.CompareAndSwapInt32(&failBatch, n, n-1) {
+							return nil, status.Error(codes.Unavailable, "verif: snapshot unavailable")
+						}
+					}
+				}
+			}
+		}
 	}
 	client, err := auctioneer.NewClient(&auctioneer.Config{
 		ServerAddress: "passthrough:///verif",
@@ -568,6 +601,7 @@ func c18RunScenarioWith(scn c18Scn, uniq int, hooks *c18Hooks) *c18ScnResult {
 		hlog.main, hlog.results = nil, nil
 		hlog.mu.Unlock()
 		atomic.StoreInt32(&failOpen, int32(op.FailOpen))
+		atomic.StoreInt32(&failBatch, int32(op.FailBatch))
 		or := c18OpResult{}
 		touch()
 		var injectedAt time.Time
@@ -732,7 +766,7 @@ func c18RunScenarioWith(scn c18Scn, uniq int, hooks *c18Hooks) *c18ScnResult {
 			if len(op.Beh) > 0 {
 				behTok = strings.Join(op.Beh, ",")
 			}
-			line := fmt.Sprintf("C18 cl %s %d %d %d %s", op.Kind, op.Acct, op.Refuse, op.FailOpen, behTok)
+			line := fmt.Sprintf("C18 cl %s %d %d %d %d %s", op.Kind, op.Acct, op.Refuse, op.FailOpen, op.FailBatch, behTok)
 			fi := func(l []int) string {
 				if len(l) == 0 {
 					return "-"
@@ -889,6 +923,13 @@ func c18GenScenario(r *Run) c18Scn {
 		}
 		return 1 + r.Rng.Intn(2)
 	}
+	// the pending-batch check of a reconnect fails (same restriction)
+	failBatch := func() int {
+		if r.Rng.Intn(6) != 0 {
+			return 0
+		}
+		return 1 + r.Rng.Intn(2)
+	}
 	nsub := 0
 	nops := 2 + r.Rng.Intn(6)
 	for i := 0; i < nops; i++ {
@@ -907,9 +948,9 @@ func c18GenScenario(r *Run) c18Scn {
 			nsub++
 			scn.Ops = append(scn.Ops, op)
 		case x < 8:
-			scn.Ops = append(scn.Ops, c18Op{Kind: "err", Refuse: refuse(), FailOpen: failOpen(), Beh: script(nsub, true)})
+			scn.Ops = append(scn.Ops, c18Op{Kind: "err", Refuse: refuse(), FailOpen: failOpen(), FailBatch: failBatch(), Beh: script(nsub, true)})
 		default:
-			scn.Ops = append(scn.Ops, c18Op{Kind: "shut", Refuse: refuse(), FailOpen: failOpen(), Beh: script(nsub, true)})
+			scn.Ops = append(scn.Ops, c18Op{Kind: "shut", Refuse: refuse(), FailOpen: failOpen(), FailBatch: failBatch(), Beh: script(nsub, true)})
 		}
 	}
 	return scn
@@ -1055,6 +1096,9 @@ func c18Clients(r *Run, scns []c18Scn) {
 			r.Count("client/op/" + op.Kind)
 			if op.FailOpen > 0 {
 				r.Count("client/open-fails")
+			}
+			if op.FailBatch > 0 {
+				r.Count("client/batch-check-fails")
 			}
 			or := res.Ops[j]
 			if or.Attempts > or.NewStreams {
